@@ -413,14 +413,25 @@ impl SeqScenario for C10 {
 struct Conc {
     policy: EvictionPolicy,
     callers: usize,
+    keys: u8,
+    max_size: usize,
+}
+
+impl Conc {
+    fn cfg(&self) -> CacheCfg {
+        CacheCfg { policy: self.policy, max_size: self.max_size, ttl: None, shared: false, keys: self.keys }
+    }
 }
 
 struct X {
     svc: Svc,
-    /// key -> serial most recently stored (tracked from resolutions of miss callers)
-    stored: std::collections::BTreeMap<u8, u32>,
+    /// the set-valued reference cache, advanced at every lookup (inside call()) and at every
+    /// store (when a miss resolves successfully)
+    cands: Vec<Model>,
     counted: Vec<bool>,
-    expect: Vec<Option<Option<u32>>>,
+    /// per caller: the serials a hit may return (None = the caller was a miss)
+    hit_serials: Vec<Option<Vec<u32>>>,
+    pending: Vec<Viol>,
 }
 
 impl Scenario for Conc {
@@ -429,26 +440,51 @@ impl Scenario for Conc {
         "C10"
     }
     fn label(&self) -> String {
-        format!("cache concurrent misses policy={} callers={}", pname(self.policy), self.callers)
+        format!("cache concurrent misses policy={} callers={} keys={} max_size={}", pname(self.policy), self.callers, self.keys, self.max_size)
     }
     fn callers(&self) -> usize {
         self.callers
     }
     fn init(&self, w: &mut World) -> X {
-        let cfg = CacheCfg { policy: self.policy, max_size: 2, ttl: None, shared: false, keys: 2 };
-        let (svc, _) = cfg.build(w.inner.clone());
-        X { svc, stored: Default::default(), counted: vec![false; 8], expect: vec![None; 8] }
+        let (svc, _) = self.cfg().build(w.inner.clone());
+        X { svc, cands: vec![Model { entries: vec![], clock: 0, expiries: 0, evictions: 0, overwrites: 0, expired_keys: 0 }], counted: vec![false; 24], hit_serials: vec![None; 24], pending: vec![] }
     }
     fn arrive_variants(&self, _w: &World, _x: &X, _c: usize) -> Vec<u8> {
-        vec![0, 1]
+        (0..self.keys).collect()
     }
     fn arrive(&self, w: &mut World, x: &mut X, c: usize, v: u8) {
+        let cfg = self.cfg();
         let mut s = x.svc.clone();
         let req = Req::new(c as u32, v);
         drive_ready::<_, Req>(&mut s, 4).expect("ready").ok();
-        // the lookup happens inside call(): remember what a hit would have to return
-        x.expect[c] = Some(x.stored.get(&v).copied());
+        let before = w.inner.lock().unwrap().calls.len();
         let f = s.call(req.clone());
+        let missed = w.inner.lock().unwrap().calls.len() > before;
+        // the lookup happened inside call(): advance the reference cache accordingly
+        let now = w.now_ms();
+        let mut next = vec![];
+        let mut serials = vec![];
+        for cand in &x.cands {
+            for (lk, m) in cand.lookups(&cfg, v, now) {
+                match (lk, missed) {
+                    (Lookup::Hit(sn), false) => {
+                        serials.push(sn);
+                        next.push(m);
+                    }
+                    (Lookup::Miss, true) => next.push(m),
+                    _ => {}
+                }
+            }
+        }
+        next.sort();
+        next.dedup();
+        if next.is_empty() {
+            let kind = if missed { "unexpected_miss" } else { "hit_on_absent_key" };
+            x.pending.push(Viol::new(kind, pname(self.policy), format!("caller {c} key {v}: call() {} the inner service, but the reference cache {:?} says otherwise", if missed { "called" } else { "did not call" }, x.cands.iter().map(|m| m.canon(now, None)).collect::<Vec<_>>())));
+        } else {
+            x.cands = next;
+        }
+        x.hit_serials[c] = if missed { None } else { Some(serials) };
         let fut: CallerFut = Box::pin(async move {
             match f.await {
                 Ok(r) => Outcome::Ok(r),
@@ -469,12 +505,14 @@ impl Scenario for Conc {
     fn allow(&self, _w: &World, _x: &X, _h: &[Action], _a: &Action) -> bool {
         true
     }
-    fn fingerprint(&self, _w: &World, x: &X) -> String {
-        format!("{:?}", x.stored)
+    fn fingerprint(&self, w: &World, x: &X) -> String {
+        format!("{:?}", x.cands.iter().map(|m| m.canon(w.now_ms(), None)).collect::<Vec<_>>())
     }
     fn after(&self, w: &mut World, x: &mut X, _a: &Action, out: &mut Vec<Viol>) {
         let site = pname(self.policy);
-        for c in 0..w.callers.len() {
+        let cfg = self.cfg();
+        out.append(&mut x.pending);
+        for c in 0..w.callers.len().min(x.counted.len()) {
             let cl = &w.callers[c];
             let Some(req) = cl.req.clone() else { continue };
             let calls = w.inner_calls_for_req(req.id);
@@ -486,27 +524,32 @@ impl Scenario for Conc {
                     continue;
                 }
                 x.counted[c] = true;
-                match (calls.len(), o) {
-                    (0, Outcome::Ok(r)) => {
-                        // a hit: must be the value most recently stored for its key when it called
-                        let want = x.expect[c].flatten();
+                match (&x.hit_serials[c], o) {
+                    (Some(allowed), Outcome::Ok(r)) => {
                         if r.key != req.key {
                             out.push(Viol::new("hit_of_another_key", site, format!("caller {c} asked for key {} and got {:?}", req.key, r)));
-                        } else if Some(r.serial) != want {
-                            out.push(Viol::new("hit_superseded_value", site, format!("caller {c} hit serial {} but the most recently stored value for key {} was {:?}", r.serial, req.key, want)));
+                        } else if !allowed.contains(&r.serial) {
+                            out.push(Viol::new("hit_superseded_value", site, format!("caller {c} hit serial {} but the value most recently stored for key {} when it called was {:?}", r.serial, req.key, allowed)));
                         }
                     }
-                    (0, other) => out.push(Viol::new("error_without_inner_call", site, format!("caller {c} resolved {:?} without an inner call", other))),
-                    (_, Outcome::Ok(r)) => {
+                    (Some(_), other) => out.push(Viol::new("error_without_inner_call", site, format!("caller {c} resolved {:?} without an inner call", other))),
+                    (None, Outcome::Ok(r)) => {
                         // a miss that completed: its response is stored now
-                        x.stored.insert(req.key, r.serial);
+                        let now = w.now_ms();
+                        let mut next = vec![];
+                        for cand in &x.cands {
+                            next.extend(cand.inserts(&cfg, req.key, r.serial, now));
+                        }
+                        next.sort();
+                        next.dedup();
+                        x.cands = next;
                     }
                     _ => {}
                 }
             }
         }
     }
-    fn witnesses(&self, w: &World, _x: &X, _h: &[Action]) -> Vec<&'static str> {
+    fn witnesses(&self, w: &World, x: &X, _h: &[Action]) -> Vec<&'static str> {
         let mut v = vec![];
         let g = w.inner.lock().unwrap();
         for a in g.calls.iter() {
@@ -515,6 +558,12 @@ impl Scenario for Conc {
                     v.push("two_misses_on_one_key_in_flight");
                 }
             }
+        }
+        if x.cands.iter().any(|m| m.overwrites > 0) {
+            v.push("entry_overwritten_by_second_miss");
+        }
+        if x.cands.iter().any(|m| m.overwrites > 0 && m.evictions > 0) {
+            v.push("eviction_after_overwrite");
         }
         v.dedup();
         v
@@ -527,23 +576,43 @@ impl Scenario for Conc {
         let mut v = vec![];
         self.after(w, x, &Action::Tick, &mut v);
         out.extend(v);
-        // final probe: every stored key must hit with exactly its latest value
-        let keys: Vec<(u8, u32)> = x.stored.iter().map(|(k, s)| (*k, *s)).collect();
-        for (k, s) in keys {
+        // final probe: every key is looked up once more; hits and misses must match the reference
+        for k in (0..self.keys).chain(0..self.keys) {
             let c = w.add_caller();
+            if c >= x.counted.len() {
+                break;
+            }
             w.begin_step();
             self.arrive(w, x, c, k);
             w.poll_caller(c);
-            match &w.callers[c].phase {
-                Phase::Done(Outcome::Ok(r)) if r.serial == s && w.inner_calls_for_req(c as u32).is_empty() => {}
-                other => out.push(Viol::new("hit_superseded_value", pname(self.policy), format!("after all misses completed, key {k} should hit serial {s}, got {:?}", other))),
+            // complete a probe miss so that the store is exercised too
+            let gate = w.inner.lock().unwrap().gateable();
+            for g in gate {
+                w.complete(g, Out::Ok);
             }
             if w.callers[c].is_live() {
-                w.drop_caller(c);
+                w.poll_caller(c);
             }
+            let mut v = vec![];
+            self.after(w, x, &Action::Tick, &mut v);
+            out.extend(v);
         }
-        format!("{:?}", x.stored)
+        format!("{:?}", x.cands.iter().map(|m| m.canon(w.now_ms(), None)).collect::<Vec<_>>())
     }
+}
+
+fn conc_configs(tier: Tier) -> Vec<Conc> {
+    let mut v = vec![];
+    for policy in [EvictionPolicy::Lru, EvictionPolicy::Lfu, EvictionPolicy::Fifo] {
+        v.push(Conc { policy, callers: tier.pick(3, 4), keys: 2, max_size: 2 });
+        // with evictions; not for LFU: its victim among equal frequencies follows the
+        // randomised HashMap iteration order, which stateless re-execution cannot replay
+        // (LFU evictions are covered by the sequential part, where every run stands alone)
+        if policy != EvictionPolicy::Lfu {
+            v.push(Conc { policy, callers: tier.pick(3, 4), keys: 3, max_size: 2 });
+        }
+    }
+    v
 }
 
 fn grid(tier: Tier) -> Vec<CacheCfg> {
@@ -573,7 +642,8 @@ fn main() {
     if let Some(p) = cli.replay {
         let v = trv_core::load_replay(&p);
         if v["config"].as_str().unwrap_or("").starts_with("cache concurrent") {
-            let c: Vec<Conc> = [EvictionPolicy::Lru, EvictionPolicy::Lfu, EvictionPolicy::Fifo].into_iter().flat_map(|p| [Conc { policy: p, callers: 3 }, Conc { policy: p, callers: 4 }]).collect();
+            let mut c = conc_configs(Tier::Quick);
+            c.extend(conc_configs(Tier::Thorough));
             svcx::replay_main("C10", &p, c);
         }
         let mut c: Vec<C10> = grid(Tier::Quick).into_iter().map(|cfg| C10 { cfg }).collect();
@@ -586,7 +656,7 @@ fn main() {
     rep.assumptions = vec![
         "points left open are set-valued: LFU victim among equal frequencies, an entry looked up at exactly its TTL, and whether an already expired entry may be evicted instead of the policy's victim".into(),
     ];
-    for w in ["hit", "insert_into_full_cache", "several_admissible_states", "lookup_of_expired_entry", "lookup_exactly_at_ttl", "two_misses_on_one_key_in_flight"] {
+    for w in ["hit", "insert_into_full_cache", "several_admissible_states", "lookup_of_expired_entry", "lookup_exactly_at_ttl", "two_misses_on_one_key_in_flight", "entry_overwritten_by_second_miss"] {
         rep.require_witness(w);
     }
     let depth = tier.pick(9, 11);
@@ -609,9 +679,8 @@ fn main() {
         }
         rep.extra.insert("abstraction_validation".into(), json!({"configs": few.len(), "depth": 4, "mismatches": mismatches}));
     }
-    for policy in [EvictionPolicy::Lru, EvictionPolicy::Lfu, EvictionPolicy::Fifo] {
-        let cfg = Conc { policy, callers: tier.pick(3, 4) };
-        let opts = Opts { max_depth: tier.pick(10, 13), time_cap: Duration::from_secs(tier.pick(20, 300)), ..Opts::default() };
+    for cfg in conc_configs(tier) {
+        let opts = Opts { max_depth: tier.pick(10, 13), time_cap: Duration::from_secs(tier.pick(30, 600)), ..Opts::default() };
         svcx::explore(&cfg, &opts, &mut rep);
     }
     trv_core::finish(rep);
